@@ -282,8 +282,9 @@ func (d *decoderRun) runRange(self string, from, to int) {
 			d.hangs++
 			d.stats.violate("hang in the decoder: no result for one input within the watchdog limit", [][]byte{input}, "",
 				fmt.Sprintf("a worker evaluating this first frame (with attachment combinations and all handler families) produced nothing for %v, twice", hangLimit))
-			d.stop.Store(true) // every further hanging input would cost another 3 x 10 s
-			d.caps = append(d.caps, "decoder: enumeration stopped after the first confirmed hang")
+			if !d.stop.Swap(true) { // every further hanging input would cost another 2 x 10 s
+				d.caps = append(d.caps, "decoder: enumeration stopped after the first confirmed hang")
+			}
 		default:
 			d.hangs++
 			d.stats.violate("decoder process killed by an input: "+firstFatalLine(res3.stderr), [][]byte{input}, "",
